@@ -46,7 +46,7 @@ func NewGitLabProvider(p *ProviderData, opts options.Provider) (*GitLabProvider,
 		OIDCProvider:    oidcProvider,
 		oidcRefreshFunc: oidcProvider.RefreshSession,
 	}
-	provider.setAllowedGroups(opts.GitLabConfig.Group)
+	provider.addAllowedGroups(opts.GitLabConfig.Group)
 
 	if err := provider.setAllowedProjects(opts.GitLabConfig.Projects); err != nil {
 		return nil, fmt.Errorf("could not configure allowed projects: %v", err)
